@@ -504,7 +504,14 @@ def random_type(rng, depth, allow_table=True, allow_handle=False, need_key=False
         t = sub()
         return t if t.err_lead else res(enum(rng.choice(["u8", "i32", "i16"])), t)
     if k == "var":
-        return var(*[sub() for _ in range(rng.choice([1, 2, 3, 4]))])
+        # a Variant that has another Variant directly among its alternatives cannot be copy/move assigned (the inner value is handed to the
+        # converting operator=(Variant<Other...>&&) template, which does not compile): not a shape the library supports
+        alts = []
+        while len(alts) < rng.choice([1, 2, 3, 4]):
+            t = sub()
+            if t.kind != "var":
+                alts.append(t)
+        return var(*alts)
     if k == "wrap":
         return wrapper(sub())
     if k == "lb":
